@@ -43,7 +43,10 @@ def cases(tier):
         out.append(dict(sys="Constrained", metric="identity", curved=True, st=si, t="1/2", h1=True, t1="1/2"))
         out.append(dict(sys="Constrained", metric="diag", curved=False, st=si, t="7", h1=True, t1="-3/4"))
         out.append(dict(sys="ConstrainedHausdorff", metric="dense", curved=True, st=si, t="1/2", h1=True, t1="-3/4"))
-        for metric, js in (("identity", (1, -2, 3)), ("diagk", (1, -1)), ("rotk", (1, -1))):
+        # ("diagk2": diag(1, 1/4, 1) at |t| = 3*theta = 7.5 > 2*pi -- a non-identity metric over more than a period)
+        # ("diaghalf": diag(4, 1, 4), frequencies 1/2, 1, 1/2, time unit 2*theta: |t| = 2*2*theta = 10 > 2*pi with a
+        #  frequency that is not an integer)
+        for metric, js in (("identity", (1, -2, 3)), ("diagk", (1, -1)), ("rotk", (1, -1)), ("diagk2", (3, -3)), ("diaghalf", (2, -1))):
             for j in js:
                 out.append(dict(sys="Gaussian", metric=metric, curved=True, st=si, t=j, h1=(j == 1), t1=t1s[(si + j) % 2]))
         out.append(dict(sys="GaussianConstrained", metric="diagk", curved=True, st=si, t=1, h1=True, t1="1/2"))
@@ -104,7 +107,7 @@ def build_system(kind, metric_name, curved, marray, with_aux=False):
     model = zoo.Model(3, with_aux=with_aux, curved=curved)
     if metric_name == "identity":
         metric = None
-    elif metric_name in ("diag", "diagk"):
+    elif metric_name in ("diag", "diagk", "diagk2", "diaghalf"):
         metric = np.diag(marray).copy()
     else:
         metric = marray.copy()
@@ -134,14 +137,36 @@ def check_against_real(recs):
         kind, metric, curved = rec["sys"], rec["metric"], rec["curved"]
         gauss = kind in ("Gaussian", "GaussianConstrained")
         q, p = _vec(rec["q"]), _vec(rec["p"])
-        t = rec["t"] * THETA if gauss else _r(rec["t"])
-        tdesc = f"{rec['t']}*atan2(3,-4)" if gauss else f"{Fraction(rec['t'][0], rec['t'][1])}"
+        unit = 2 * THETA if metric == "diaghalf" else THETA
+        t = rec["t"] * unit if gauss else _r(rec["t"])
+        tdesc = f"{rec['t'] * (2 if metric == 'diaghalf' else 1)}*atan2(3,-4)" if gauss else f"{Fraction(rec['t'][0], rec['t'][1])}"
         marray = _mat(rec["marray"])
         tag = f"{kind}[{metric}]"
         rp = {"engine": "flowexact", "case": {k: rec[k] for k in ("sys", "metric", "curved", "q", "p", "t")}}
-        for with_aux in (False, True):
-            model, system = build_system(kind, metric, curved, marray, with_aux)
-            if not np.allclose(np.asarray(system.metric.array if metric != "identity" else np.eye(3)), marray, rtol=1e-12, atol=1e-12):
+        # how the system came to have its metric: built with it; built with another one, used, and the metric
+        # reassigned (what the metric adapters do); dense metrics also as the inverse of an already used object
+        histories = [("built", False), ("reassigned", True)]
+        if metric in ("dense", "rotk"):
+            histories.append(("inverse-of-used", False))
+        for hi, (how, with_aux) in enumerate(histories):
+            model, system = build_system(kind, metric if how != "reassigned" else ("diag" if metric != "diag" else "dense"), curved,
+                                         marray if how != "reassigned" else (np.diag([1.5, 0.7, 2.0]) if metric != "diag" else
+                                                                             np.array([[2.0, 0.3, 0.1], [0.3, 1.0, -0.2], [0.1, -0.2, 1.5]])), with_aux)
+            if how == "reassigned":
+                warm = ChainState(pos=q.copy(), mom=p.copy(), dir=1)
+                system.h2_flow(warm, 0.3)
+                system.h2_flow(warm, t)
+                if hasattr(system, "dh2_flow_dmom"):
+                    system.dh2_flow_dmom(warm, t)
+                _, target = build_system(kind, metric, curved, marray, with_aux)
+                system.metric = target.metric
+            elif how == "inverse-of-used":
+                import mici.matrices as MM
+                used = MM.DensePositiveDefiniteMatrix(np.linalg.inv(marray))
+                _ = used.eigval, used.eigvec.array, float(used.log_abs_det)
+                system.metric = used.inv
+            tag = f"{kind}[{metric}]" + ("" if how == "built" else f"({how})")
+            if not np.allclose(np.asarray(system.metric.array if metric != "identity" else np.eye(3)), marray, rtol=1e-10, atol=1e-12):
                 raise MachineryError("real metric differs from the spec's metric")
             # h2_flow
             st = ChainState(pos=q.copy(), mom=p.copy(), dir=1)
